@@ -71,3 +71,14 @@ Theorem C10_every_language_keeps_shape : forall fam raw g t,
   byte_shape t = byte_shape raw /\ blen t = blen raw.
 Proof. exact registered_normalisers_keep_shape. Qed.
 Print Assumptions C10_every_language_keeps_shape.
+
+(* Whatever the key pattern (none, whole match, value group): for every key the extractor returns, the diagnostic's line and byte columns select exactly that key's text in the file. *)
+Theorem C10_any_key_of_any_pattern_points_at_itself : forall (pre content post : str) o pat e ks k b code sev data,
+  let file := pre ++ content ++ post in
+  b_clo b = blen pre -> b_chi b = blen pre + blen content ->
+  b_cs b = pos_of_offset file (blen pre) ->
+  keys_of o pat e content = Ok ks -> In k ks ->
+  let d := key_diag b k code sev data in
+  text_at file (d_sl d) (d_sc d) (d_ec d) = Some (k_val k).
+Proof. exact key_range_exact_keys_of. Qed.
+Print Assumptions C10_any_key_of_any_pattern_points_at_itself.
